@@ -147,8 +147,14 @@ func senderDriver(args []string) error {
 						mods := []func(*protocol.Snapshot){
 							func(x *protocol.Snapshot) { x.Version++ },
 							func(x *protocol.Snapshot) { x.EventDigest = append([]byte{}, x.EventDigest...); x.EventDigest[0] ^= 1 },
-							func(x *protocol.Snapshot) { x.HistoryDigest = append([]byte{}, x.HistoryDigest...); x.HistoryDigest[0] ^= 0x80 },
-							func(x *protocol.Snapshot) { x.HyperDigest = append([]byte{}, x.HyperDigest...); x.HyperDigest[len(x.HyperDigest)-1] ^= 1 },
+							func(x *protocol.Snapshot) {
+								x.HistoryDigest = append([]byte{}, x.HistoryDigest...)
+								x.HistoryDigest[0] ^= 0x80
+							},
+							func(x *protocol.Snapshot) {
+								x.HyperDigest = append([]byte{}, x.HyperDigest...)
+								x.HyperDigest[len(x.HyperDigest)-1] ^= 1
+							},
 							func(x *protocol.Snapshot) { x.EventDigest, x.HistoryDigest = x.HistoryDigest, x.EventDigest },
 							func(x *protocol.Snapshot) { x.EventDigest = append(append([]byte{}, x.EventDigest...), 0) },
 						}
